@@ -50,7 +50,7 @@ ASSUMPTIONS = [
     "which simulation does not decide",
     "the 'fresh generator' reference uses the same generator code under test (it is the definition of the input)",
 ]
-PROBES = ["explicit_reseed", "explicit_reseed_zero", "cross_process_reproducibility", "history_with_abandoned_pass", "history_with_probe", "from_random_parallel", "window_with_pole", "size_multiple_of_chunk", "tail_chunk", "from_random_with_stalled_peer_fault", "second_generator_alive"]
+PROBES = ["explicit_reseed", "explicit_reseed_zero", "cross_process_reproducibility", "history_with_abandoned_pass", "history_with_probe", "from_random_parallel", "window_with_pole", "size_multiple_of_chunk", "tail_chunk", "from_random_with_stalled_peer_fault", "second_generator_alive", "draw_aborted_midway"]
 REAL_VS_STUB = dict(
     real="yaw.randoms, RandomReader, Catalog.from_random and the whole creation pipeline, numpy Generator",
     stub="multiprocessing (sim.fakemp) for workers > 1; treecorr RNG/threads for patch_num; builtins.id (sim.identity)",
@@ -233,6 +233,43 @@ class Model:
         if len(chunk) != n:
             raise HistoryViolation(dict(property=PROP, failing_rule="gen", outcome="wrong_size"), f"generator({n}) returned {len(chunk)} points")
         _check_output(self.case, chunk, "gen")
+
+    def op_abort(self, k: int, n: int) -> None:
+        """A draw that dies half-way: the k-th call into the generator's random stream raises (a
+        failed allocation, Ctrl-C).  The exception reaches the caller, who keeps using the generator;
+        every later seeded use must still reproduce the fresh stream."""
+
+        class _Aborting:
+            def __init__(self, real, at):
+                self._real, self._at, self._calls, self.fired = real, at, 0, False
+
+            def __getattr__(self, name):
+                attr = getattr(self._real, name)
+                if not callable(attr):
+                    return attr
+
+                def call(*a, **kw):
+                    self._calls += 1
+                    if self._calls == self._at and not self.fired:
+                        attr(*a, **kw)  # the stream advances, the result is lost
+                        self.fired = True
+                        raise MemoryError("simulated allocation failure inside a draw")
+                    return attr(*a, **kw)
+
+                return call
+
+        real = self.gen.rng
+        proxy = _Aborting(real, k)
+        self.gen.rng = proxy
+        try:
+            self.gen(n)
+            self.outcomes[-1] = "abort-not-reached"
+        except MemoryError:
+            self.rec.probe("draw_aborted_midway")
+            self.outcomes[-1] = "aborted"
+        finally:
+            if self.gen.rng is proxy:
+                self.gen.rng = real
 
     def op_other(self, which: int, n: int) -> None:
         """A second, live generator with another window and seed: instances must not share state."""
@@ -432,6 +469,8 @@ def draw_op(prng) -> list:
     chunks = [1, 2, 3, 5, 7, 10, 16, 20, 64]
     rule = prng.choice(["gen", "probe", "pass", "from_random", "from_random", "reseed", "other"])
     if rule == "other":
+        if prng.chance(1, 2):
+            return ["abort", prng.randint(1, 3), prng.randint(1, 20)]
         return ["other", prng.below(4), prng.randint(1, 20)]
     if rule == "reseed":
         return ["reseed", prng.below(4), prng.randint(1, 30)]
@@ -469,6 +508,10 @@ def _machine_factory(case: dict, root: str, rec: Recorder):
         @rule(n=st.integers(0, 50))
         def gen(self, n):
             self._do(["gen", n])
+
+        @rule(k=st.integers(1, 3), n=st.integers(1, 20))
+        def abort(self, k, n):
+            self._do(["abort", k, n])
 
         @rule(which=st.integers(0, 3), n=st.integers(1, 20))
         def other(self, which, n):
